@@ -25,6 +25,7 @@ def judge(run, cases, test, trace_module, prefixes, shards=4, env=None, sig_fn=N
     binp = os.path.join(wd, pkg + ".test")
     vlib.go_build_test(pkg, binp)
     shards = max(1, min(shards, len(cases)))
+    tmo = 600 if run.tier == "quick" else 3000
 
     def one(si):
         part = cases[si::shards]
@@ -33,9 +34,9 @@ def judge(run, cases, test, trace_module, prefixes, shards=4, env=None, sig_fn=N
         for p in (op, tp):
             if os.path.exists(p):
                 os.remove(p)
-        e = {"VH_CASES": cp, "VH_OUT": op, "VH_TRACE": tp, "GOLOG_LOG_LEVEL": "fatal", "VERIF_SEED": vlib.seed(), "VERIF_TIER": run.tier}
+        e = {"VH_CASES": cp, "VH_OUT": op, "VH_TRACE": tp, "GOLOG_LOG_LEVEL": "error", "VERIF_SEED": vlib.seed(), "VERIF_TIER": run.tier}
         e.update(env or {})
-        r = vlib.run_bin(binp, ["-test.run", "^%s$" % test, "-test.timeout", "3000s", "-test.count", "1"], env_extra=e, timeout=3100)
+        r = vlib.run_bin(binp, ["-test.run", "^%s$" % test, "-test.timeout", "%ds" % tmo, "-test.count", "1"], env_extra=e, timeout=tmo + 60)
         recs = vlib.read_ndjson(op)
         crash = None
         if r.returncode != 0:
@@ -104,3 +105,69 @@ def c10(run):
                        "plus seeded random byte payloads; non-trivial = not answered with OK; distinct = distinct request")
     run.assumptions += ["mocknet streams ignore deadlines: the hang clause is decided by virtual time (a request unanswered after 3 virtual minutes at quiescence)",
                         "byte-level decoding is covered by a finite catalogue + seeded random strings, not exhaustively"]
+
+
+@register("C11")
+def c11(run):
+    cases, _ = table_flow(run, "Subscriber", "Subscriber.cfg", "C11", "TestSubscriber", "SubscriberTrace", ["C11_"], shards=2)
+    for c in cases[:3]:
+        run.sample({"in": c["in"], "predicted": c["predicted"]})
+    run.cov["exhaustive"] = True
+    run.cov["rule"] = ("every (payload class x verifier outcome) row of Subscriber.tla is published through real gossipsub nodes on mocknet "
+                       "(publisher -- node under test -- downstream) inside a synctest bubble; verdict read from a RawTracer on the node under test, "
+                       "delivery from Subscription.NextHeader, relay from the downstream node; non-trivial = not accepted; distinct = distinct row")
+    run.assumptions += ["payload classes are instantiated by one representative each (byte-level decoding not exhaustive)",
+                        "gossipsub validation timeout provides the context expiry of the 'verifier not set' row"]
+
+
+@register("C13")
+def c13(run):
+    quick = run.tier == "quick"
+    rnd = random.Random(vlib.seed())
+    res = vlib.tlc(run.pid, "table", "ExchangeGet", "ExchangeGet.cfg", export_key="C13", workers=4,
+                   constants={"MaxPeers": 2 if quick else 3}, timeout=3000)
+    vlib.require_tlc_ok(res, "ExchangeGet.tla")
+    run.add_tlc("ExchangeGet.tla decision table (answer class per trusted peer x arrival order x Get/GetByHeight)", res)
+    cases = res.exported
+    total = len(cases)
+    cap_ = 500 if quick else 6000
+    if total > cap_:
+        one = [c for c in cases if len(c["in"]["ans"]) == 1]
+        rest = [c for c in cases if len(c["in"]["ans"]) > 1]
+        cases = one + rnd.sample(rest, cap_ - len(one))
+    for i, c in enumerate(cases):
+        c["id"] = i
+    run.cov["rows_total"], run.cov["rows_executed"] = total, len(cases)
+    run.cov["exhaustive"] = total == len(cases)
+    for c in cases[:2] + cases[-2:]:
+        run.sample({"in": c["in"], "predicted": c["predicted"]})
+    run.cov["rule"] = ("every assignment of 12 answer classes to 1..%d trusted peers x arrival order x {Get, GetByHeight} (TLC initial states); "
+                       "seeded sample of the multi-peer rows in the quick tier; scripted peers on mocknet released one at a time; "
+                       "non-trivial = the call returns an error; distinct = distinct row" % (2 if quick else 3))
+    run.assumptions += ["a hanging peer is a stream held beyond RequestTimeout and then reset (mocknet ignores deadlines)",
+                        "answer classes are instantiated by one representative byte string each"]
+    judge(run, cases, "TestGet", "ExchangeGetTrace", ["C13_"], shards=8)
+
+
+@register("C09")
+def c09(run):
+    quick = run.tier == "quick"
+    rnd = random.Random(vlib.seed())
+    res = vlib.tlc(run.pid, "table", "ExchangeHead", "ExchangeHead.cfg", export_key="C09", workers=8,
+                   constants={"MaxPeers": 4, "MaxTrustedPeers": 3 if quick else 4}, timeout=3000)
+    vlib.require_tlc_ok(res, "ExchangeHead.tla")
+    run.add_tlc("ExchangeHead.tla decision table (answers x arrival orders x trusted/untrusted mode, quorum arithmetic for n<=6)", res)
+    cases = res.exported
+    total = len(cases)
+    for i, c in enumerate(cases):
+        c["id"] = i
+    run.cov["rows_total"], run.cov["rows_executed"] = total, len(cases)
+    run.cov["exhaustive"] = total == len(cases)
+    for c in cases[:2] + cases[-2:]:
+        run.sample({"in": c["in"], "predicted": c["predicted"]})
+    run.cov["rule"] = ("every multiset of answers (header ids with verification class, fail, hang) of 1..%d asked peers in every arrival order, "
+                       "with WithTrustedHead for up to %d peers and without for up to 4 peers; every row executed; gated scripted peers on mocknet; "
+                       "non-trivial = not a plain nil-error result; distinct = distinct row" % (4, 3 if quick else 4))
+    run.assumptions += ["a hanging peer never answers within the caller's 5 s (virtual) context",
+                        "verification classes are realised by header content against the trusted head (adjacent/non-adjacent, bad signature, lower height)"]
+    judge(run, cases, "TestHead", "ExchangeHeadTrace", ["C09_"], shards=8)
